@@ -1,6 +1,7 @@
-(* C15: every sample lands in exactly one grid bin (statements only; proofs in GridProofs.v). *)
-From Coq Require Import ZArith List Bool Reals Lia.
-From CV Require Import Base.Num Base.RNum C15.GridModel C15.GridProofs.
+(* C15: every sample lands in exactly one grid bin; grid files round-trip
+   (statements only; proofs in GridProofs.v and GridIOProofs.v). *)
+From Coq Require Import ZArith List Bool Reals Lia Lra.
+From CV Require Import Base.Num Base.RNum C15.GridModel C15.GridProofs C15.GridIOModel C15.GridIOProofs.
 Import ListNotations.
 
 (* The bin index computed by value_to_bin_scalar is the unique i with
@@ -42,8 +43,9 @@ Proof. exact incr_spec. Qed.
 Print Assumptions C15_incr_walks_in_address_order.
 
 (* After any history, each array element holds exactly the total weight of the eligible
-   samples whose bin vector is in range and has that address (scalar variables: eligible =
-   can_accumulate_data; gathered vector variables: the implementation accumulates at every step). *)
+   samples whose bin vector is in range and has that address (eligible = can_accumulate_data, for scalar
+   variables (vm = false: one sample of weight 1 per step) and for gathered vector variables (vm = true: one
+   sample per component, with its configured weight) alike). *)
 Theorem C15_hist_element_is_sample_sum : forall (c : hist_cfg) (vm : bool) (h : list hist_in) (a : nat),
   all_pos (h_nx c) ->
   nth a (hist_run Rops vm c h) 0%R = lsum (map (weight_at c a) (eligible_samples c vm h)).
@@ -96,3 +98,159 @@ Example C15_example_addresses :
   all_pos [3; 4]%Z /\ in_range [3; 4]%Z [2; 3]%Z /\ address 1 [3; 4]%Z [2; 3]%Z = 11%Z /\
   incr [3; 4]%Z [1; 3]%Z = [2; 0]%Z /\ index_ok [3; 4]%Z (incr [3; 4]%Z [2; 3]%Z) = false.
 Proof. repeat split; try (repeat constructor; lia); vm_compute; reflexivity. Qed.
+
+(* ===================== second half: grid files (model in GridIOModel.v) =====================
+   Grids are written to / read from lists of abstract tokens; a number is a value of the carrier (the
+   decimal formatting of numbers and its rounding are outside the model: the theorems say that the
+   *structure* of the three forms loses nothing). *)
+
+(* The loop `for (ix = new_index(); index_ok(ix); incr(ix))` that every writer and reader uses visits every
+   grid point exactly once, in address order: write order = incr order = address order; and the loop is
+   left by index_ok, never by the model's fuel. *)
+Theorem C15_write_order_is_address_order : forall mult nx, (0 < mult)%Z -> all_pos nx -> nx <> [] ->
+  map (fun ix => Z.to_nat (address mult nx ix)) (all_indices nx) = arange 0 (Z.to_nat mult) (npoints nx) /\
+  Forall (in_range nx) (all_indices nx) /\
+  forall extra, walk (npoints nx + extra) nx (new_index nx) = all_indices nx.
+Proof. exact write_order_is_address_order. Qed.
+Print Assumptions C15_write_order_is_address_order.
+
+(* Raw form (every carrier, every shape, multiplicity >= 1, every line length): the written stream is the
+   data array in address order, and reading it into any grid of the same shape gives back exactly the data. *)
+Theorem C15_roundtrip_raw : forall (T : Type) (O : NumOps T) (buf : nat) (g g0 : grid T) (rest : list (tok T)),
+  grid_wf g -> grid_wf g0 -> same_shape g0 g ->
+  strip (write_raw buf g) = map TNum (gr_data g) /\
+  read_raw O g0 (write_raw buf g ++ rest) = Some (set_data g0 (gr_data g), strip rest).
+Proof. exact raw_roundtrip_full. Qed.
+Print Assumptions C15_roundtrip_raw.
+
+(* Short data are rejected: if fewer numbers than grid elements can be read (the stream ends, or something
+   that is not a number comes first) read_raw fails; it never returns a partially filled grid. *)
+Theorem C15_raw_short_data_rejected : forall (T : Type) (O : NumOps T) (g : grid T) (toks : list (tok T)),
+  grid_wf g -> (lead O (strip toks) < length (gr_data g))%nat -> read_raw O g toks = None.
+Proof. exact (@raw_short_rejected). Qed.
+Print Assumptions C15_raw_short_data_rejected.
+
+(* Multicolumn form: read_multicol of a written file into a grid of the same geometry takes the
+   same-grid path and gives back exactly the data (add = false) or adds them element by element (add = true). *)
+Theorem C15_roundtrip_multicol : forall (g g0 : grid R),
+  grid_wf g -> geom_wf g -> grid_wf g0 -> same_geom g0 g ->
+  read_multicol Rops false g0 (write_multicol Rops g) = Some (set_data g0 (gr_data g), []).
+Proof. exact multicol_roundtrip. Qed.
+Print Assumptions C15_roundtrip_multicol.
+
+Theorem C15_multicol_add : forall (g g0 : grid R),
+  grid_wf g -> geom_wf g -> grid_wf g0 -> same_geom g0 g ->
+  exists data', read_multicol Rops true g0 (write_multicol Rops g) = Some (set_data g0 data', []) /\
+    length data' = length (gr_data g) /\
+    forall j, (j < length (gr_data g))%nat -> nth j data' 0%R = (nth j (gr_data g0) 0 + nth j (gr_data g) 0)%R.
+Proof. exact multicol_add. Qed.
+Print Assumptions C15_multicol_add.
+
+(* The constructor from a multicolumn file: sizes, lower boundaries, widths, periodicity flags and data are
+   those of the written grid.  (The upper boundaries are not in the file; the constructor leaves that vector
+   empty -- they are lower + nx*width.) *)
+Theorem C15_roundtrip_multicol_file : forall (g : grid R), grid_wf g -> geom_wf g ->
+  grid_from_multicol Rops (gr_mult g) (write_multicol Rops g) =
+  Some (mkGrid (gr_mult g) (gr_nx g) (gr_lower g) [] (gr_width g) (gr_per g) (gr_data g), []).
+Proof. exact multicol_file_roundtrip. Qed.
+Print Assumptions C15_roundtrip_multicol_file.
+
+(* A truncated multicolumn file (any strict prefix of the token stream) is rejected. *)
+Theorem C15_multicol_truncated_rejected : forall (add : bool) (g g0 : grid R) (n : nat),
+  grid_wf g -> geom_wf g -> grid_wf g0 -> same_geom g0 g ->
+  (n < length (strip (write_multicol Rops g)))%nat ->
+  read_multicol_s Rops add g0 (firstn n (strip (write_multicol Rops g))) = None.
+Proof. exact multicol_truncated_rejected. Qed.
+Print Assumptions C15_multicol_truncated_rejected.
+
+(* The re-gridding loop of read_multicol (file written on another grid), multiplicity 1, overwrite: it is the
+   record-by-record re-mapping `remap_record` of the first half, to which C15_remap_periodic_target and
+   C15_remap_lossless apply (every carrier; the loop ends where no further coordinates can be read). *)
+Theorem C15_regrid_is_remap : forall (T : Type) (O : NumOps T) (g : grid T), gr_mult g = 1%Z -> (0 < gnd g)%nat ->
+  forall (recs : list (list T * T)) (data : list T) (fuel : nat),
+  Forall (fun rc => length (fst rc) = gnd g) recs -> (length recs < fuel)%nat ->
+  remap_rows O fuel false g (flat_map record_toks recs) data
+  = Some (fold_left (remap_record O (geom_of g)) recs data, []).
+Proof. exact (@remap_rows_is_fold). Qed.
+Print Assumptions C15_regrid_is_remap.
+
+(* Restart (state) form: grid_parameters { n_colvars lower_boundaries upper_boundaries widths sizes } + raw data.
+   Reading what was written gives back the grid -- sizes, boundaries, widths, periodicity flags, data --
+   whatever the current sizes, boundaries, widths and data of the receiving grid are (a grid of the same
+   variables and multiplicity): both when the parameters in the state agree with the current definition
+   (array kept) and when they do not (array re-allocated from the boundaries; expanded grids). *)
+Theorem C15_roundtrip_state : forall (cvs : list (cvinfo (T := R))) (g g0 : grid R) (rest : list (tok R)),
+  grid_wf g -> grid_consistent cvs g ->
+  grid_wf g0 -> gr_mult g0 = gr_mult g -> gnd g0 = gnd g ->
+  length (gr_lower g0) = gnd g -> length (gr_upper g0) = gnd g -> length (gr_width g0) = gnd g ->
+  gr_per g0 = gr_per g ->
+  read_restart Rops cvs g0 (write_restart g ++ rest) = Some (g, strip rest).
+Proof. exact state_roundtrip. Qed.
+Print Assumptions C15_roundtrip_state.
+
+(* Malformed restart data are rejected (every carrier): a block that is never closed, fewer boundaries than variables,
+   fewer values than the grid (as defined by the parameters just read) has elements. *)
+Theorem C15_state_malformed_rejected : forall (T : Type) (O : NumOps T) (cvs : list (cvinfo (T := T))) (g0 : grid T),
+  (forall toks, ~ In TClose toks -> read_restart O cvs g0 toks = None) /\
+  (forall conf vals, lookup KLower conf = Some vals -> (lead O vals < length (gr_lower g0))%nat ->
+     parse_params O cvs g0 conf = None) /\
+  (forall toks conf s g1, read_block toks = Some (conf, s) -> parse_params O cvs g0 conf = Some g1 ->
+     grid_wf g1 -> (lead O (strip s) < length (gr_data g1))%nat -> read_restart O cvs g0 toks = None).
+Proof. exact state_malformed_rejected. Qed.
+Print Assumptions C15_state_malformed_rejected.
+
+(* OpenDX header: the origin is the centre of the first bin, origin + k*delta the centre of bin k. *)
+Theorem C15_opendx_origin : forall (lower width : list R) (nx : list Z),
+  length lower = length nx -> length width = length nx ->
+  dx_origin Rops lower width = bin_centers Rops lower width (new_index nx) /\
+  forall l w k, (nadd Rops l (nmul Rops (nhalf Rops) w) + IZR k * w = bin_to_value Rops l w k)%R.
+Proof. exact opendx_origin. Qed.
+Print Assumptions C15_opendx_origin.
+
+(* non-vacuity: a 2x3 gradient grid (mult 2) on one periodic and one non-periodic variable satisfies every
+   premise above, and the three forms really are different streams *)
+Definition ex_cvs : list (cvinfo (T := R)) := [mkCv 6 1; mkCv 0 1]%R.
+Definition ex_grid : grid R :=
+  mkGrid 2 [2; 3]%Z [-3; 1]%R [-3 + IZR 2 * 3; 1 + IZR 3 * (1/2)]%R [3; 1/2]%R
+         [cv_periodic_boundaries Rops (mkCv 6 1) (-3) (-3 + IZR 2 * 3); cv_periodic_boundaries Rops (mkCv 0 1) 1 (1 + IZR 3 * (1/2))]%R
+         [1; 2; 3; 4; 5; 6; 7; 8; 9; 10; 11; 12]%R.
+Example C15_example_grid_premises :
+  grid_wf ex_grid /\ geom_wf ex_grid /\ grid_consistent ex_cvs ex_grid /\
+  all_indices (gr_nx ex_grid) = [[0;0];[0;1];[0;2];[1;0];[1;1];[1;2]]%Z /\
+  length (strip (write_multicol Rops ex_grid)) = 36%nat /\ length (write_raw 3 ex_grid) = 16%nat.
+Proof.
+  split; [|split; [|split; [|split; [|split]]]].
+  - repeat split; try (repeat constructor; lia); discriminate.
+  - repeat split.
+  - unfold grid_consistent, ex_grid, ex_cvs; cbn [gr_nx gr_lower gr_upper gr_width gr_per].
+    repeat (constructor; try lia; try lra; try reflexivity).
+  - reflexivity.
+  - reflexivity.
+  - reflexivity.
+Qed.
+
+(* non-vacuity of the rejection theorems and of the "same shape / same geometry" premises: a stream that ends
+   after one number, a block that is never closed, a lower_boundaries line with one value for two variables, a
+   strict prefix of the written multicolumn stream.  (That read_block and parse_params succeed on a written
+   restart stream -- the premises of the third clause of C15_state_malformed_rejected -- is what
+   C15_roundtrip_state proves on its way.) *)
+Example C15_example_rejection_premises :
+  same_shape ex_grid ex_grid /\ same_geom ex_grid ex_grid /\
+  (lead Rops (strip [TNum 1%R; TNl; TBad]) < length (gr_data ex_grid))%nat /\
+  ~ In TClose [TKey KGridParams; @TOpen R; TNl; TKey KNColvars; TInt 2%Z] /\
+  lookup KLower [TKey KNColvars; TInt 2%Z; TNl; TKey KLower; TNum 1%R; TNl] = Some [TNum 1%R] /\
+  (lead Rops [TNum 1%R] < length (gr_lower ex_grid))%nat /\
+  (20 < length (strip (write_multicol Rops ex_grid)))%nat.
+Proof.
+  split; [split; reflexivity|]. split; [repeat split; reflexivity|].
+  split; [cbn; lia|]. split; [intros [H|[H|[H|[H|[H|[]]]]]]; discriminate|].
+  split; [reflexivity|]. split; [cbn; lia|].
+  replace (length (strip (write_multicol Rops ex_grid))) with 36%nat by (symmetry; apply C15_example_grid_premises). lia.
+Qed.
+
+(* non-vacuity of C15_regrid_is_remap: one record read into a 1-D periodic grid of four bins *)
+Example C15_example_regrid :
+  let g := mkGrid 1%Z [4%Z] [0%R] [4%R] [1%R] [true] [0; 0; 0; 0]%R in
+  gr_mult g = 1%Z /\ (0 < gnd g)%nat /\ Forall (fun rc : list R * R => length (fst rc) = gnd g) [([5 / 2], 7)]%R /\
+  (length [([5 / 2], 7)]%R < 2)%nat.
+Proof. cbn. repeat split; try lia. repeat constructor. Qed.
